@@ -13,7 +13,7 @@ import (
 func init() {
 	register(&propDef{
 		id: "C47", run: runC47, minOblig: 75,
-		explanation: "Decides structural necessary conditions of the OTR conversation property, independently of how the code is factored (helpers of the package that are not protocol steps themselves are interpreted / searched in place; values are identified by provenance and by struct field, never by the name of a local, parameter or receiver). (AKE transition table) the authentication state machine of Conversation.Receive is extracted from the code by flow-sensitive interpretation starting where the type byte of the base64-decoded message is read — for every (message type in {DH-Commit, DH-Key, Reveal-Signature, Signature} x authState in {None, AwaitingDHKey, AwaitingRevealSig, AwaitingSig}, and both outcomes of the commit comparison / duplicate-key test) the sequence of protocol steps (Conversation methods) performed on the success path, which produced message is passed to encode, the successor authState, the message state, the reported SecurityChange and whether a certainly non-nil error is returned — and compared with the OTR version 2 specification's table (in particular: a repeated D-H Commit in AwaitingRevealSig retransmits the SAME D-H Key, every other acceptance of a commit generates a fresh one after reset; the winner of a SYN-crossing retransmits its commit; Reveal-Signature / Signature are processed only in their awaiting states and alone switch the message state to encrypted); the data path is walked for each message state: processData is reached from stateEncrypted only; a query (walked from the entry of Receive) resets, sends a fresh commit and awaits the D-H Key. (fragments) the reassembly automaton of processFragment is extracted the same way with byte slices represented by their lengths, over k, n, stored k, stored n in 0..3 and an empty / non-empty payload (512 cases): rejection, the stored fragment (untouched / payload / old+payload / empty), the stored counters and the returned complete message are compared with the specification's rules. (data MAC) in processData and its helpers the decryption, the counter update, both key-id advances (key rotation) and every non-nil plaintext result are reachable only behind a success edge of the constant-time comparison (subtle.ConstantTimeCompare == 1 or hmac.Equal, also when it is merged into a flag, negated, or returned by a helper as bool / error) between the computed HMAC and the 20-byte MAC field of the message; the MAC is HMAC-SHA1 keyed with the receiving slot key over exactly the received bytes that precede the MAC field; decryption and the counter update lie behind the test that the received 8-byte counter (read by getNBytes(., 8)) is STRICTLY greater than the slot's stored counter, recognised by the operands' provenance in its equivalent forms (bytes.Compare / slices.Compare of the byte strings or cmp.Compare of their big-endian integers against a constant; a <, <=, >, >= comparison of the big-endian integers obtained by binary.BigEndian.Uint64, hand-written shifts or a helper; either operand order; the outcome returned by a bool / error helper) — a test that admits equality is not accepted. (SMP dispatch) for every (TLV type x SMP state) the set of reachable handler calls and state stores in processSMP and its non-step helpers, with the reads of tlv.typ and smpState.state bound by field, equals the specification's (wrong-state messages reset and answer with an abort) and no panic is reachable; the TLV types Receive forwards are exactly those processSMP handles, so its default panic is unreachable. (panics) every explicit panic reachable from Receive in the call graph is justified by its content (message text, or the standard-library call whose error it reports: random-source or primitive failure = environment; the auth-state default is evaluated to be unreachable for each of the four states, which are the only values ever assigned; the SMP default is discharged by the table above); constant indices into decoded slices (the header bytes of the decoded message, the MPI lists of the four SMP processors, the getUxx helpers) are unreachable when the slice is shorter (evaluated for every length 0..21, the length test being in the function or in a helper that receives the slice). NOT decided: that honest peers derive equal keys (modular arithmetic), SMP zero-knowledge proof arithmetic, delivery of every message, implicit panics on variable indices.",
+		explanation: "Decides structural necessary conditions of the OTR conversation property, independently of how the code is factored (helpers of the package that are not protocol steps themselves are interpreted / searched in place; values are identified by provenance and by struct field, never by the name of a local, parameter or receiver). (AKE transition table) the authentication state machine of Conversation.Receive is extracted from the code by flow-sensitive interpretation starting where the type byte of the base64-decoded message is read — for every (message type in {DH-Commit, DH-Key, Reveal-Signature, Signature} x authState in {None, AwaitingDHKey, AwaitingRevealSig, AwaitingSig}, and both outcomes of the commit comparison / duplicate-key test) the sequence of protocol steps (Conversation methods) performed on the success path, which produced message is passed to encode, the successor authState, the message state, the reported SecurityChange and whether a certainly non-nil error is returned — and compared with the OTR version 2 specification's table (in particular: a repeated D-H Commit in AwaitingRevealSig retransmits the SAME D-H Key, every other acceptance of a commit generates a fresh one after reset; the winner of a SYN-crossing retransmits its commit; Reveal-Signature / Signature are processed only in their awaiting states and alone switch the message state to encrypted); the data path is walked for each message state: processData is reached from stateEncrypted only; a query (walked from the entry of Receive) resets, sends a fresh commit and awaits the D-H Key. (fragments) the reassembly automaton of processFragment is extracted the same way with byte slices represented by their lengths, over k, n, stored k, stored n in 0..3 and an empty / non-empty payload (512 cases): rejection, the stored fragment (untouched / payload / old+payload / empty), the stored counters and the returned complete message are compared with the specification's rules. (data MAC) in processData and its helpers the decryption, the counter update, both key-id advances (key rotation) and every non-nil plaintext result are reachable only behind a success edge of the constant-time comparison (subtle.ConstantTimeCompare == 1 or hmac.Equal, also when it is merged into a flag, negated, or returned by a helper as bool / error) between the computed HMAC and the 20-byte MAC field of the message; the MAC is HMAC-SHA1 keyed with the receiving slot key over exactly the received bytes that precede the MAC field; decryption and the counter update lie behind the test that the received 8-byte counter (read by getNBytes(., 8)) is STRICTLY greater than the slot's stored counter, recognised by the operands' provenance in its equivalent forms (bytes.Compare / slices.Compare of the byte strings or cmp.Compare of their big-endian integers against a constant; a <, <=, >, >= comparison of the big-endian integers obtained by binary.BigEndian.Uint64, hand-written shifts or a helper; either operand order; the outcome returned by a bool / error helper) — a test that admits equality is not accepted. (SMP dispatch) for every (TLV type x SMP state) the set of reachable handler calls and state stores in processSMP and its non-step helpers, with the reads of tlv.typ and smpState.state bound by field, equals the specification's (wrong-state messages reset and answer with an abort) and no panic is reachable; the TLV types Receive forwards are exactly those processSMP handles, so its default panic is unreachable. (panics) every explicit panic reachable from Receive in the call graph is justified by its content (message text, or the standard-library call whose error it reports: random-source or primitive failure = environment; the auth-state default is evaluated to be unreachable for each of the four states, which are the only values ever assigned; the SMP default is discharged by the table above); constant indices into decoded slices (the header bytes of the decoded message, the MPI lists of the four SMP processors, the getUxx helpers) are unreachable when the slice is shorter (evaluated for every length 0..21, the length test being in the function or in a helper that receives the slice). (fragment size) every integer division in Conversation.encode and its helpers is evaluated for every configured FragmentSize 0..64 with the message length left unknown: wherever the division is reachable its divisor is non-zero (FragmentSize equal to the 18 bytes of framing used to divide by zero). NOT decided: that honest peers derive equal keys (modular arithmetic), SMP zero-knowledge proof arithmetic, delivery of every message, implicit panics on variable indices.",
 		assumptions: []string{"VTA call graph over-approximates interface dispatch", "the reference tables transcribe the OTR v2 protocol description (sections 'The protocol state machine', 'Fragmentation', 'Socialist Millionaires Protocol')", "the protocol steps are the existing Conversation methods (processDHCommit, reset, generateDHKey, encode, processSMP1..4, ...): a refactoring that dissolves one of them changes the observed vocabulary"},
 	})
 	tech("C47", "flow-sensitive finite-domain interpretation (helpers inlined) of the AKE / fragment automata and role-bound interprocedural reachability for the SMP table, compared with the specification tables; value-sensitive interprocedural must-cross rule for the data MAC; call-graph enumeration of explicit panics justified by content; constant-index guard evaluation over all short lengths")
